@@ -100,6 +100,19 @@ def layout(arch="x86", e_lfanew=0x80, data_len=0):
         "sec1_rawsize": (sec0 + 40 + 16, 4),
         "sec1_rawptr": (sec0 + 40 + 20, 4),
         "sec2_rawsize": (sec0 + 80 + 16, 4),
+        "sec0_rawsize": (sec0 + 16, 4),
+        "sec0_rawptr": (sec0 + 20, 4),
+        "sec2_vsize": (sec0 + 80 + 8, 4),
+        "sec2_va": (sec0 + 80 + 12, 4),
+        "sec2_rawptr": (sec0 + 80 + 20, 4),
+        "symtab_ptr": (fh + 8, 4),
+        "characteristics": (fh + 18, 2),
+        "size_of_code": (opt + 4, 4),
+        "entry_point": (opt + 16, 4),
+        "section_alignment": (opt + 32, 4),
+        "file_alignment": (opt + 36, 4),
+        "size_of_image": (opt + 56, 4),
+        "checksum": (opt + 64, 4),
         "export_dir_stamp": (soh + 0x200 + 0x14, 4),
         "size_of_headers_value": soh,
         "data_off": soh + 0x400,
@@ -117,3 +130,5 @@ def selftest():
             assert struct.unpack_from("<I", img, lay["export_dir_stamp"][0])[0] == 0x5FA0B264
             assert struct.unpack_from("<I", img, lay["export_rva"][0])[0] == 0x2010
             assert img[lay["data_off"] : lay["data_off"] + 10] == b"x" * 10
+            assert struct.unpack_from("<II", img, lay["section_alignment"][0]) == (0x1000, 0x200)
+            assert struct.unpack_from("<I", img, lay["sec2_va"][0])[0] == 0x3000 and struct.unpack_from("<I", img, lay["entry_point"][0])[0] == 0x1000
